@@ -112,6 +112,11 @@ def stream(ctx, grammars, sr, hashseed):
                 og = decode_grammar(r["ok"], sr)
             except Exception:
                 continue
+            if t[0] == "sub_trim" and r["ok"]["S"] != repr(M.ntname(t[1])):
+                if not ctx.seen("sub_trim:start"):
+                    ctx.violation("sub_trim:start", f"cfg[{M.ntname(t[1])}].trim() (after cfg.trim()) has the start symbol {r['ok']['S']}: it is the trimmed grammar of another start symbol",
+                                  {"kind": "shape", "transform": list(t), "pred": "all_useful", "sr": sr, "grammar": g, "original_grammar": g, "output": og})
+                continue
             pred = TR.POST.get(t[0])
             if pred:
                 exprs.append(pred_expr(pred, og))
